@@ -369,17 +369,20 @@ def check_thin_wrappers(ctx, F, rule="E-FFI.thin"):
 SIBLING_EXCEPTIONS = {
     # (function suffix, kind) -> why this member legitimately differs from its siblings
     ("false", "zbdd"): "the ZBDD constant false is the empty family: delegates to oxidd_zbdd_empty",
-    ("pick_cube", "zbdd"): "builds the empty result slice explicitly instead of using slice::EMPTY",
 }
 _DROP = ("ln", "lid", "exp", "lbl", "to", "ga", "rty", "hty", "ty")
 
 
-def _norm_hir(h, kind):
+def _norm_hir(h, kind, F=None):
     import json
     names = {}
 
     def walk(x):
         if isinstance(x, dict):
+            # a crate-local constant is the same program as its initialiser (`assignment_t::EMPTY` vs. the literal)
+            if F is not None and x.get("k") == "path" and str(x.get("did", "")).startswith("oxidd_ffi_c::") \
+                    and "body" in (F.consts.get(x.get("did")) or {}):
+                return walk(F.consts[x["did"]]["body"])
             out = {}
             for k, v in x.items():
                 if k in _DROP:
@@ -415,7 +418,25 @@ def check_siblings(ctx, F, rule="E-FFI.siblings"):
                 name = fid[len(m):]
                 if not name.startswith("oxidd_%s_" % k):
                     continue
-                by.setdefault(name[len("oxidd_%s_" % k):], {})[k] = (fid, _norm_hir(h, k))
+                by.setdefault(name[len("oxidd_%s_" % k):], {})[k] = (fid, _norm_hir(h, k, F))
+    # the handle conversions (`CFunction::get`, `From<Function>`, ...) and associated constants of the three modules
+    def knorm(t, k):
+        K = k.upper()
+        for a, b in (("::%s::" % k, "::K::"), ("%s_t" % k, "K_t"), ("%s_manager_t" % k, "K_manager_t"), (K + "Function", "KFunction"),
+                     (K + "ManagerRef", "KManagerRef")):
+            t = t.replace(a, b)
+        return t
+    for fid, h in F.hir.items():
+        for k, m in mods.items():
+            im = (F.fns.get(fid) or {}).get("impl") or {}
+            if fid.startswith(m + "{impl#") and fid.count("::") == 3 and im.get("trait"):
+                key = "<%s>::%s" % (knorm("%s<%s>" % (im["trait"], ", ".join(im.get("trait_args") or [])), k), fid.rsplit("::", 1)[-1])
+                by.setdefault(key, {})[k] = (fid, _norm_hir(h, k, F))
+    for cid, c in F.consts.items():
+        for k, m in mods.items():
+            if cid.startswith(m + "{impl#") and "body" in c:
+                key = "const <%s as %s>::%s" % (knorm(c.get("impl_self", ""), k), c.get("impl_trait"), cid.rsplit("::", 1)[-1])
+                by.setdefault(key, {})[k] = (cid, _norm_hir({"params": [], "body": c["body"]}, k, None))
     n = 0
     used = set()
     for suf, d in sorted(by.items()):
@@ -444,6 +465,27 @@ def check_siblings(ctx, F, rule="E-FFI.siblings"):
         ctx.ob(rule + ".exception", "%s.exception:%s:%s" % (rule, key[1], key[0]), key in used,
                "reviewed deviation oxidd_%s_%s: %s%s" % (key[1], key[0], why, "" if key in used else " -- no longer exists"),
                nontrivial=False)
+    return n
+
+
+def check_empty_consts(ctx, F, rule="E-FFI.empty"):
+    """The `EMPTY` / `INVALID` / `NONE` constants of the C interface are what an operation hands out when there is no
+    result; C callers test `len == 0` / `_p == NULL`.  Every length / capacity field of such a constant is the
+    literal 0 and a pointer field of an `INVALID` handle is null: otherwise the C side reads through a dangling pointer."""
+    n = 0
+    for cid, c in sorted(F.consts.items()):
+        if not (cid.startswith("oxidd_ffi_c::") and cid.rsplit("::", 1)[-1] in ("EMPTY", "INVALID") and (c.get("body") or {}).get("k") == "struct"):
+            continue
+        n += 1
+        bad = []
+        for fn, fv in c["body"]["f"]:
+            if fn in ("len", "_cap", "cap") and not (fv.get("k") == "lit" and fv.get("v") == "0"):
+                bad.append("field `%s` is not 0" % fn)
+            if fn in ("_p", "data") and cid.endswith("INVALID") or (fn == "data" and "assignment_t" in c.get("name", "")):
+                if not (fv.get("k") == "call" and str((fv.get("f") or {}).get("did", "")).startswith("core::ptr::null")):
+                    bad.append("pointer field `%s` is not null" % fn)
+        ctx.ob(rule, "%s:%s" % (rule, c.get("name", cid)), not bad, "%s: %s" % (c.get("name", cid), "; ".join(bad) if bad else "null pointer / zero length"))
+    ctx.anchor(rule, "EMPTY / INVALID constants of the C interface (5 confirmed by reading)", n >= 5)
     return n
 
 
